@@ -180,6 +180,10 @@ func (s *Service) handler(ctx context.Context, p p2p.Peer, stream p2p.Stream) (e
 	if err != nil {
 		return err
 	}
+	// the JSON text "null" decodes without error and leaves no cheque
+	if signedCheque == nil {
+		return fmt.Errorf("read request from peer %v: no cheque", p.Address)
+	}
 
 	return s.traffic.ReceiveCheque(ctx, p.Address, signedCheque)
 }
